@@ -5,13 +5,19 @@ Property theorems only; helper lemmas live in `Sourmash/Lemmas/Md5Cache.lean`.
 `VOk s` / `TOk s` : the cache field is `none` or `some (digest (ksize s, mins s))`.
 `VPair` / `TPair` : two sketches of one type; `Cmd` : any op of the property's quantifier applied to
 either of them with the other as operand (`Model/Md5Cache.lean`), `run` : a whole command list.
+`Op` has one constructor per mutating entry point of the sketch types: add / add-with-abundance, set,
+add_many, add_many_with_abund, add_from, remove, remove_many, remove_from, add_word / add_sequence /
+add_protein (`addSeq hs err`: ANY list of contributed hashes, then success or ANY failure after them),
+clear, merge, inflate, enable/disable abundance, downsample_scaled / downsample_max_hash (on a clone
+and by value), the serde round trip, `kmerminhash_set_abundances`; `Pair`/`PCmd` add the `From`
+conversions between the two types.
 `digest k mins = md5 (preimage k mins)` with `Md5.md5` the RFC 1321 function of `Model/Md5.lean`. -/
 namespace Sourmash.C13
 open MH Md5Cache
 
-/-- **T-cache_inv**, vector type: for every command list — md5sum / clone / copy / == interleaved in
-    any order with add, add-with-abundance, set, remove, remove_many, clear, merge, inflate,
-    enable/disable abundance, on either sketch — starting from sketches whose cache is empty or
+/-- **T-cache_inv**, vector type: for every command list — md5sum / clone / copy / == (both operand
+    orders) interleaved in any order with every mutating entry point (see the list above), on either
+    sketch — starting from sketches whose cache is empty or
     correct (new, cloned, correctly loaded), both caches are empty or hold the digest of the current
     (ksize, hashes). -/
 theorem cache_inv_vec (p : VPair) (cs : List Cmd) (h0 : VOk p.main ∧ VOk p.other) :
@@ -22,6 +28,90 @@ theorem cache_inv_vec (p : VPair) (cs : List Cmd) (h0 : VOk p.main ∧ VOk p.oth
 theorem cache_inv_tree (p : TPair) (cs : List Cmd) (h0 : TOk p.main ∧ TOk p.other) :
     TOk (p.run cs).main ∧ TOk (p.run cs).other :=
   TPair.run_ok cs h0
+
+/-- **T-cache_inv**, both types with the `From` conversions vector↔tree anywhere in the history. -/
+theorem cache_inv_mixed (p : Pair) (cs : List PCmd) (h0 : p.Ok) : (p.run cs).Ok :=
+  Pair.run_ok cs h0
+
+/-- **T-md5_current** over the mixed machine: after any history with conversions, `md5sum` of either
+    sketch (whatever type the pair has by then) is the digest of its current ksize and hashes. -/
+theorem md5_current_mixed (p : Pair) (cs : List PCmd) (h0 : p.Ok) :
+    match p.run cs with
+    | .v q => q.main.md5sum.1 = Md5.digest q.main.ksize q.main.mins
+        ∧ q.other.md5sum.1 = Md5.digest q.other.ksize q.other.mins
+    | .t q => q.main.md5sum.1 = Md5.digest q.main.ksize q.main.mins
+        ∧ q.other.md5sum.1 = Md5.digest q.other.ksize q.other.mins := by
+  have h := cache_inv_mixed p cs h0
+  cases hq : p.run cs with
+  | v q => rw [hq] at h; exact ⟨(Vec.md5sum_spec h.1).1, (Vec.md5sum_spec h.2).1⟩
+  | t q => rw [hq] at h; exact ⟨(Tree.md5sum_spec h.1).1, (Tree.md5sum_spec h.2).1⟩
+
+/-- **T-failed_bulk** (the clause "whatever … mutations happened before", for a call that FAILS
+    part-way): after any history, a sequence call that contributes the hashes `hs` and then fails
+    with `e` leaves a sketch that holds what adding `hs` one by one gives, answers the error
+    together with those hashes, and its next `md5sum` is the digest of exactly those hashes —
+    not of what was there before the call. -/
+theorem failed_bulk_vec (p : VPair) (cs : List Cmd) (h0 : VOk p.main ∧ VOk p.other) (hs : List Nat) (e : String) :
+    let q := p.run cs
+    let r := q.step (.on false (.addSeq hs (some e)))
+    r.1.main.mins = (q.main.addMany hs).mins ∧ r.2 = .errMins e (q.main.addMany hs).mins
+    ∧ r.1.main.md5sum.1 = Md5.digest q.main.ksize (q.main.addMany hs).mins := by
+  intro q r
+  have h := cache_inv_vec p cs h0
+  have hr : VOk r.1.main := (VPair.step_ok (p := q) (.on false (.addSeq hs (some e))) h).1
+  have hm : r.1.main = q.main.addMany hs := rfl
+  refine ⟨by rw [hm], rfl, ?_⟩
+  rw [(Vec.md5sum_spec hr).1, hm]
+  unfold Vec.digest
+  rw [Vec.addMany_ksize]
+
+theorem failed_bulk_tree (p : TPair) (cs : List Cmd) (h0 : TOk p.main ∧ TOk p.other) (hs : List Nat) (e : String) :
+    let q := p.run cs
+    let r := q.step (.on false (.addSeq hs (some e)))
+    r.1.main.mins = (q.main.addMany hs).mins ∧ r.2 = .errMins e (q.main.addMany hs).mins
+    ∧ r.1.main.md5sum.1 = Md5.digest q.main.ksize (q.main.addMany hs).mins := by
+  intro q r
+  have h := cache_inv_tree p cs h0
+  have hr : TOk r.1.main := (TPair.step_ok (p := q) (.on false (.addSeq hs (some e))) h).1
+  have hm : r.1.main = q.main.addMany hs := rfl
+  refine ⟨by rw [hm], rfl, ?_⟩
+  rw [(Tree.md5sum_spec hr).1, hm]
+  unfold Tree.digest
+  rw [Tree.addMany_ksize]
+
+/-- **T-derived**: the sketches DERIVED from a consistent sketch report the digest of their own
+    contents: the result of `downsample_scaled` (the moved sketch or a new one), the sketch loaded
+    back from the serialised form (same ksize and hashes as its source, hence the same md5sum), and
+    the `From` conversion (same ksize and hashes). -/
+theorem derived_vec (p : VPair) (cs : List Cmd) (h0 : VOk p.main ∧ VOk p.other) (sc : Nat) :
+    let s := (p.run cs).main
+    (∀ t, s.downsampleScaled sc = .ok t → t.md5sum.1 = Md5.digest t.ksize t.mins)
+    ∧ s.serde.1.mins = s.mins ∧ s.serde.1.ksize = s.ksize ∧ s.serde.1.md5sum.1 = s.md5sum.1
+    ∧ s.toTree.mins = s.mins ∧ s.toTree.ksize = s.ksize
+    ∧ s.toTree.md5sum.1 = Md5.digest s.ksize s.mins := by
+  intro s
+  have h := (cache_inv_vec p cs h0).1
+  have hl := Vec.serde_spec h
+  refine ⟨fun t ht => (Vec.md5sum_spec (VOk.downsampleScaled sc h ht)).1, hl.1, hl.2.1, ?_, rfl, rfl,
+    (Tree.md5sum_spec (TOk.ofVec s)).1⟩
+  rw [(Vec.md5sum_spec hl.2.2.2.1).1, (Vec.md5sum_spec h).1]
+  unfold Vec.digest
+  rw [hl.1, hl.2.1]
+
+theorem derived_tree (p : TPair) (cs : List Cmd) (h0 : TOk p.main ∧ TOk p.other) (sc : Nat) :
+    let s := (p.run cs).main
+    (∀ t, s.downsampleScaled sc = .ok t → t.md5sum.1 = Md5.digest t.ksize t.mins)
+    ∧ s.serde.1.mins = s.mins ∧ s.serde.1.ksize = s.ksize ∧ s.serde.1.md5sum.1 = s.md5sum.1
+    ∧ s.toVec.mins = s.mins ∧ s.toVec.ksize = s.ksize
+    ∧ s.toVec.md5sum.1 = Md5.digest s.ksize s.mins := by
+  intro s
+  have h := (cache_inv_tree p cs h0).1
+  have hl := Tree.serde_spec h
+  refine ⟨fun t ht => (Tree.md5sum_spec (TOk.downsampleScaled sc h ht)).1, hl.1, hl.2.1, ?_, rfl, rfl,
+    (Vec.md5sum_spec (VOk.ofTree s)).1⟩
+  rw [(Tree.md5sum_spec hl.2.2.2.1).1, (Tree.md5sum_spec h).1]
+  unfold Tree.digest
+  rw [hl.1, hl.2.1]
 
 /-- the three admissible starting points satisfy the hypothesis of T-cache_inv: a new sketch, a
     clone of a consistent sketch, and a loaded sketch whose stored digest is that of its hashes -/
@@ -113,6 +203,48 @@ theorem eq_is_digest_eq_tree (p : TPair) (cs : List Cmd) (h0 : TOk p.main ∧ TO
   have h := cache_inv_tree p cs h0
   exact (Tree.eq_spec h.1 h.2).1
 
+/-- **T-eq_ksize** (the "ksize" half of "equal exactly when ksize and hashes agree"): after any
+    history, for two sketches holding the SAME hashes under DIFFERENT ksizes, `==` compares the MD5
+    of two different byte strings (the ksize digits are part of the preimage) — it can only answer
+    `true` through an MD5 collision; it never short-cuts on the hashes alone. -/
+theorem eq_ksize_vec (p : VPair) (cs : List Cmd) (h0 : VOk p.main ∧ VOk p.other) :
+    let q := p.run cs
+    q.main.mins = q.other.mins → q.main.ksize ≠ q.other.ksize →
+    Md5.preimage q.main.ksize q.main.mins ≠ Md5.preimage q.other.ksize q.other.mins
+    ∧ (q.main.eq q.other).1 = (Md5.md5 (Md5.preimage q.main.ksize q.main.mins)
+        == Md5.md5 (Md5.preimage q.other.ksize q.other.mins)) := by
+  intro q hm hk
+  refine ⟨fun h => hk (Md5.preimage_ksize_inj (hm ▸ h)), ?_⟩
+  exact eq_is_digest_eq_vec p cs h0
+
+theorem eq_ksize_tree (p : TPair) (cs : List Cmd) (h0 : TOk p.main ∧ TOk p.other) :
+    let q := p.run cs
+    q.main.mins = q.other.mins → q.main.ksize ≠ q.other.ksize →
+    Md5.preimage q.main.ksize q.main.mins ≠ Md5.preimage q.other.ksize q.other.mins
+    ∧ (q.main.eq q.other).1 = (Md5.md5 (Md5.preimage q.main.ksize q.main.mins)
+        == Md5.md5 (Md5.preimage q.other.ksize q.other.mins)) := by
+  intro q hm hk
+  refine ⟨fun h => hk (Md5.preimage_ksize_inj (hm ▸ h)), ?_⟩
+  exact eq_is_digest_eq_tree p cs h0
+
+/-- `==` does not depend on the operand order, after any history (`other == main` is the same digest
+    comparison) -/
+theorem eq_symm_vec (p : VPair) (cs : List Cmd) (h0 : VOk p.main ∧ VOk p.other) :
+    let q := p.run cs
+    (q.other.eq q.main).1 = (q.main.eq q.other).1 := by
+  intro q
+  have h := cache_inv_vec p cs h0
+  rw [(Vec.eq_spec h.1 h.2).1, (Vec.eq_spec h.2 h.1).1]
+  exact Bool.beq_comm
+
+theorem eq_symm_tree (p : TPair) (cs : List Cmd) (h0 : TOk p.main ∧ TOk p.other) :
+    let q := p.run cs
+    (q.other.eq q.main).1 = (q.main.eq q.other).1 := by
+  intro q
+  have h := cache_inv_tree p cs h0
+  rw [(Tree.eq_spec h.1 h.2).1, (Tree.eq_spec h.2 h.1).1]
+  exact Bool.beq_comm
+
 /-- **T-copy**: after any history a clone holds its source's ksize and hashes, reports the same
     md5sum as its source, and that is the digest of those hashes. -/
 theorem copy_vec (p : VPair) (cs : List Cmd) (h0 : VOk p.main ∧ VOk p.other) :
@@ -169,5 +301,12 @@ theorem eq_complete_cex_reachable :
 /-! non-vacuity of the hypotheses: the starting pair used by the driver satisfies them -/
 example : VOk (Vec.new 3 0 true) ∧ VOk (Vec.new 3 0 false) := ⟨VOk.new .., VOk.new ..⟩
 example : TOk (Tree.new 0 5 true) ∧ TOk (Tree.new 0 5 false) := ⟨TOk.new .., TOk.new ..⟩
+example : Pair.Ok (.v ⟨Vec.new 3 0 true, Vec.new 3 0 false 31⟩) := ⟨VOk.new .., VOk.new ..⟩
+example : Pair.Ok (.t ⟨Tree.new 0 5 true, Tree.new 0 5 false 31⟩) := ⟨TOk.new .., TOk.new ..⟩
+/-- hypotheses of T-eq_ksize: same hashes, different ksizes -/
+example : let q := (⟨Vec.new 0 5 false 21, Vec.new 0 5 false 31⟩ : VPair).run []
+    q.main.mins = q.other.mins ∧ q.main.ksize ≠ q.other.ksize := by decide
+/-- `downsample_scaled` does produce a sketch (hypothesis of T-derived is satisfiable) -/
+example : ∃ t, (Vec.new 0 (2 ^ 64 - 1) false).downsampleScaled 1 = .ok t := ⟨_, rfl⟩
 
 end Sourmash.C13
